@@ -16,6 +16,7 @@ package drv
 
 import (
 	"bufio"
+	"bytes"
 	"context"
 	"errors"
 	"fmt"
@@ -24,6 +25,7 @@ import (
 	"net"
 	"net/http"
 	"net/http/httptest"
+	"path/filepath"
 	"reflect"
 	"runtime/debug"
 	"strings"
@@ -117,6 +119,14 @@ type streamEx struct {
 	HandlerPan string
 	Herr       error // harness failure (cannot build a value, missing method, timeout)
 
+	// unary calls on the same mounted pair (operation sequences, opseq.go): what the stub
+	// answers, what the client endpoint returned, the complete response the server wrote
+	Reply      func(method string, args []any) []any
+	Res        any
+	RespHeader http.Header
+	RespBody   []byte
+	ReqBody    []byte
+
 	reqSeen     atomic.Bool
 	handlerDone chan struct{}
 	tickets     *int64
@@ -150,8 +160,14 @@ type StreamSvc struct {
 	timedOut  bool
 	newClient any
 	bound     int
-	mu        sync.Mutex
-	cur       *streamEx
+	unixDir   string // listen on a unix domain socket in this directory instead of a TCP port
+	binds     int
+	httpc     *http.Client // the generated client's Doer when the server listens on a unix socket
+	// KeepEndpoints: one endpoint function per method and client object (operation sequences)
+	KeepEndpoints bool
+	eps           map[string]goa.Endpoint
+	mu            sync.Mutex
+	cur           *streamEx
 }
 
 // rwTap records the status and body the server wrote without upgrading, and stays a Hijacker.
@@ -163,6 +179,7 @@ type rwTap struct {
 func (w *rwTap) WriteHeader(code int) {
 	if w.ex.Status == 0 {
 		w.ex.Status = code
+		w.ex.RespHeader = w.Header().Clone()
 	}
 	w.ResponseWriter.WriteHeader(code)
 }
@@ -170,9 +187,13 @@ func (w *rwTap) WriteHeader(code int) {
 func (w *rwTap) Write(b []byte) (int, error) {
 	if w.ex.Status == 0 {
 		w.ex.Status = 200
+		w.ex.RespHeader = w.Header().Clone()
 	}
 	if len(w.ex.Body) < 400 {
 		w.ex.Body += string(b)
+	}
+	if len(w.ex.RespBody) < 1<<16 {
+		w.ex.RespBody = append(w.ex.RespBody, b...)
 	}
 	return w.ResponseWriter.Write(b)
 }
@@ -199,10 +220,17 @@ func (trackUpgrader) Upgrade(w http.ResponseWriter, r *http.Request, h http.Head
 	return conn, err
 }
 
-type trackDialer struct{}
+// trackDialer dials the exchange's server: over TCP to the address in the URL, or, when sock is
+// set, over the unix domain socket the server listens on (the URL keeps its meaning otherwise).
+type trackDialer struct{ sock string }
 
-func (trackDialer) DialContext(ctx context.Context, url string, h http.Header) (*websocket.Conn, *http.Response, error) {
+func (t trackDialer) DialContext(ctx context.Context, url string, h http.Header) (*websocket.Conn, *http.Response, error) {
 	d := &websocket.Dialer{HandshakeTimeout: streamTimeout} // no proxy, no environment
+	if t.sock != "" {
+		d.NetDialContext = func(ctx context.Context, _, _ string) (net.Conn, error) {
+			return (&net.Dialer{}).DialContext(ctx, "unix", t.sock)
+		}
+	}
 	conn, resp, err := d.DialContext(ctx, url, h)
 	if ex, ok := ctx.Value(streamKey{}).(*streamEx); ok && conn != nil {
 		ex.mu.Lock()
@@ -214,8 +242,18 @@ func (trackDialer) DialContext(ctx context.Context, url string, h http.Header) (
 
 // MountStreaming builds stub, endpoints and server of s's service behind a real HTTP server and a
 // generated client that dials it.
-func MountStreaming(s *Svc) (*StreamSvc, error) {
-	ss := &StreamSvc{S: s}
+func MountStreaming(s *Svc) (*StreamSvc, error) { return mountStreaming(s, "") }
+
+// MountStreamingUnix is MountStreaming with the HTTP server listening on a unix domain socket in
+// dir instead of a loopback TCP port: same stream semantics (kernel-buffered, ordered, half-close,
+// errors after the peer has gone), but no port is consumed and no socket stays in TIME_WAIT, so
+// any number of mounts can be made in a short time (operation sequences mount one pair per
+// sequence, tens of thousands in a minute). The generated client is given the host "verif.test";
+// its HTTP client and its WebSocket dialer connect to the socket whatever the host says.
+func MountStreamingUnix(s *Svc, dir string) (*StreamSvc, error) { return mountStreaming(s, dir) }
+
+func mountStreaming(s *Svc, unixDir string) (*StreamSvc, error) {
+	ss := &StreamSvc{S: s, unixDir: unixDir}
 	dir := norm(s.Service.Name)
 	var syms, ssyms, csyms map[string]any
 	for _, e := range vreg.All() {
@@ -249,21 +287,68 @@ func MountStreaming(s *Svc) (*StreamSvc, error) {
 	server := callFunc(reflect.ValueOf(ssyms["New"]), endpoints.Interface(), ss.mux, goahttp.RequestDecoder, goahttp.ResponseEncoder, errh, up, http.Dir("/nonexistent"))[0]
 	callFunc(reflect.ValueOf(ssyms["Mount"]), ss.mux, server.Interface())
 	ss.newClient = csyms["NewClient"]
-	ss.bind()
+	if err := ss.bind(); err != nil {
+		return nil, err
+	}
 	return ss, nil
 }
 
 // bind starts a fresh HTTP server (new loopback port) in front of the muxer and points a fresh
 // generated client at it.
-func (ss *StreamSvc) bind() {
-	ss.ts = httptest.NewUnstartedServer(http.HandlerFunc(ss.serve))
-	ss.ts.Config.ErrorLog = log.New(io.Discard, "", 0)
-	ss.ts.Start()
-	var dl goahttp.Dialer = trackDialer{}
-	var doer goahttp.Doer = ss.ts.Client()
-	host := strings.TrimPrefix(ss.ts.URL, "http://")
+func (ss *StreamSvc) bind() error {
+	handler := http.HandlerFunc(ss.serve)
+	var doer goahttp.Doer
+	var dl goahttp.Dialer
+	host := ""
+	if ss.unixDir != "" {
+		ss.binds++
+		sock := filepath.Join(ss.unixDir, fmt.Sprintf("srv%d.sock", ss.binds))
+		l, err := net.Listen("unix", sock)
+		if err != nil {
+			return fmt.Errorf("cannot listen on %s: %w", sock, err)
+		}
+		ss.ts = &httptest.Server{Listener: l, Config: &http.Server{Handler: handler}}
+		ss.ts.Config.ErrorLog = log.New(io.Discard, "", 0)
+		ss.ts.Start()
+		if ss.httpc != nil {
+			ss.httpc.CloseIdleConnections()
+		}
+		ss.httpc = &http.Client{Transport: &http.Transport{DialContext: func(ctx context.Context, _, _ string) (net.Conn, error) {
+			return (&net.Dialer{}).DialContext(ctx, "unix", sock)
+		}}}
+		doer, dl, host = ss.httpc, trackDialer{sock: sock}, "verif.test"
+	} else {
+		ss.ts = httptest.NewUnstartedServer(handler)
+		ss.ts.Config.ErrorLog = log.New(io.Discard, "", 0)
+		ss.ts.Start()
+		doer, dl, host = ss.ts.Client(), trackDialer{}, strings.TrimPrefix(ss.ts.URL, "http://")
+	}
 	ss.client = callFunc(reflect.ValueOf(ss.newClient), "http", host, doer, goahttp.RequestEncoder, goahttp.ResponseDecoder, false, dl)[0]
 	ss.bound = 0
+	ss.eps = nil
+	return nil
+}
+
+// endpoint returns the client endpoint of a method. A caller normally asks the generated client
+// for its endpoints once (the generated service client is built from them) and calls them many
+// times: with KeepEndpoints the endpoint function of a method is created once per client object,
+// so that whatever it captures lives across calls; otherwise a new one is made for every call.
+func (ss *StreamSvc) endpoint(method string) (goa.Endpoint, error) {
+	if ep, ok := ss.eps[method]; ok && ss.KeepEndpoints {
+		return ep, nil
+	}
+	epm := ss.client.MethodByName(ss.S.GoMethod(method))
+	if !epm.IsValid() {
+		return nil, fmt.Errorf("client has no endpoint method for %q", method)
+	}
+	ep := epm.Call(nil)[0].Interface().(goa.Endpoint)
+	if ss.KeepEndpoints {
+		if ss.eps == nil {
+			ss.eps = map[string]goa.Endpoint{}
+		}
+		ss.eps[method] = ep
+	}
+	return ep, nil
 }
 
 // rebindEvery bounds the number of connections made to one listening port (each exchange leaves
@@ -272,6 +357,9 @@ const rebindEvery = 4000
 
 // Close stops the HTTP server.
 func (ss *StreamSvc) Close() {
+	if ss.httpc != nil {
+		ss.httpc.CloseIdleConnections()
+	}
 	if ss.timedOut {
 		// a handler may still be blocked: do not wait for it
 		_ = ss.ts.Listener.Close()
@@ -291,6 +379,10 @@ func (ss *StreamSvc) serve(w http.ResponseWriter, r *http.Request) {
 	}
 	defer close(ex.handlerDone)
 	ex.ServerReq = r.Clone(context.Background())
+	if streamKind(ex.M) == "" && r.Body != nil {
+		ex.ReqBody, _ = io.ReadAll(r.Body)
+		r.Body = io.NopCloser(bytes.NewReader(ex.ReqBody))
+	}
 	r = r.WithContext(context.WithValue(r.Context(), streamKey{}, ex))
 	defer func() {
 		if p := recover(); p != nil {
@@ -335,6 +427,16 @@ func (ss *StreamSvc) hook(method string, args []any) []any {
 		return nil
 	}
 	atomic.AddInt32(&ex.Invoked, 1)
+	if streamKind(ex.M) == "" {
+		// a unary method of a service mounted on sockets (operation sequences)
+		if ex.M.Payload != nil && len(args) >= 2 {
+			ex.GotPayload = ss.S.V.Get(reflect.ValueOf(args[1]), ex.M.Payload)
+		}
+		if ex.Reply != nil {
+			return ex.Reply(method, args)
+		}
+		return nil
+	}
 	if ex.M.Payload != nil && len(args) >= 3 {
 		ex.GotPayload = ss.S.V.Get(reflect.ValueOf(args[1]), ex.M.Payload)
 	}
@@ -515,17 +617,18 @@ func (ss *StreamSvc) Exchange(ex *streamEx) {
 		ex.SentN = s.V.Get(rv, m.Payload)
 		payload = rv.Interface()
 	}
-	epm := ss.client.MethodByName(s.GoMethod(m.Name))
-	if !epm.IsValid() {
-		ex.Herr = fmt.Errorf("client has no endpoint method for %q", m.Name)
+	if ss.bound++; ss.bound > rebindEvery && !ss.timedOut && ss.unixDir == "" {
+		ss.ts.Close()
+		if err := ss.bind(); err != nil {
+			ex.Herr = err
+			return
+		}
+	}
+	ep, err := ss.endpoint(m.Name)
+	if err != nil {
+		ex.Herr = err
 		return
 	}
-	if ss.bound++; ss.bound > rebindEvery && !ss.timedOut {
-		ss.ts.Close()
-		ss.bind()
-		epm = ss.client.MethodByName(s.GoMethod(m.Name))
-	}
-	ep := epm.Call(nil)[0].Interface().(goa.Endpoint)
 	ss.setCurrent(ex)
 	defer ss.setCurrent(nil)
 	cliDone := make(chan struct{})
